@@ -64,6 +64,13 @@ def run(P, rep, tier):
     rep.floor("C01.R3", 4)
     rep.floor("C01.R4", 8)
     rep.floor("C01.R5", 22)
+    # refinement against the pinned tree for every function the rules above looked at (rules/pinned.py)
+    import os as _os
+
+    if not _os.environ.get("MDSA_PINNED_GEN"):
+        from .pinned import refine
+
+        refine(P, rep, ctx, "C01")
 
 
 def _newest(*tails):
